@@ -17,6 +17,9 @@ CHECKS = {
     "C02": {"parts": [FLOW]},
     "C03": {"parts": [FLOW]},
     "C04": {"parts": [FLOW]},
+    "C06": {"parts": [FLOW]},
+    "C07": {"parts": [FLOW]},
+    "C12": {"parts": [FLOW]},
     "C05": {"parts": [FLOW]},
     "SMOKE": {
         "parts": [
